@@ -91,6 +91,52 @@ fn run(a: &vhcore::Args) -> i32 {
             }
         }
     }
+    // Optimiser folding: the same S1 expressions with LITERAL operands inside a function body, release
+    // build (const-folding / ccp see the operands), against the reference value. A reverting
+    // expression may be rejected at compile time, but no value may be substituted for it.
+    let lit: Vec<Case> = vh_comp::spaces::corpus_literal(thorough);
+    let pool2 = Pool::new(a.jobs, vhcore::work_dir("C06-lit"));
+    let res2 = run_campaign(&pool2, "c06lit", &lit, 120, &[spec("release", true)]);
+    let (mut folded_evals, mut folded_rejected) = (0u64, 0u64);
+    for cr in &res2.per_case {
+        let case = &lit[cr.case_idx];
+        for (label, b) in &cr.builds {
+            folded_evals += 1;
+            match b {
+                CaseBuild::Ran(o) => {
+                    outcomes.add(&format!("{o:?}"));
+                    if let Some(m) = expect_mismatch(o, &case.expect) {
+                        rep.violation(
+                            &format!("C06|optimiser-folding|{}|value-differs-from-run-time-semantics", shape_of(case)),
+                            &format!("{} [{label}] {m}", case.desc),
+                            vh_comp::replay::case_replay_json(case, label, true),
+                        );
+                    }
+                }
+                CaseBuild::BuildFailed { error, panic, panic_loc } => {
+                    if panic.is_some() {
+                        rep.violation(
+                            &format!("C06|optimiser-folding|compiler-panic@{panic_loc}"),
+                            &format!("{} [{label}] compiler panicked: {panic:?}", case.desc),
+                            vh_comp::replay::case_replay_json(case, label, true),
+                        );
+                    } else if matches!(case.expect, Expect::Ok(_)) {
+                        rep.violation(
+                            &format!("C06|optimiser-folding|{}|valid-expression-rejected", shape_of(case)),
+                            &format!("{} [{label}] {error}", case.desc),
+                            vh_comp::replay::case_replay_json(case, label, true),
+                        );
+                    } else {
+                        folded_rejected += 1;
+                    }
+                }
+                CaseBuild::Missing => {}
+            }
+        }
+    }
+    rep.set("optimiser_folding_cases", folded_evals);
+    rep.set("optimiser_folding_rejected_reverting", folded_rejected);
+    evals += folded_evals;
     if outcomes.len() < 2 {
         vhcore::machinery_failure("vacuous: fewer than 2 distinct outcomes");
     }
